@@ -101,7 +101,16 @@ sbj_h!(k_subject_unsubscribe__o2, false, |sbj, l1, l2| {
 });
 sbj_h!(k_subject_counts__on_subscribe_on_unsubscribe, false, |sbj, l1, l2| {
   let cnt = Log::new();
-  sbj.set_on_subscribe(move |n| cnt.push(0x700 | n as u32));
+  let me: &'static Slot<Subject<'static, u8>> = Slot::new();
+  me.set(sbj.clone());
+  // when on_subscribe(n) is told about the new observer, that observer is already registered (ref_count connects inside this call:
+  // whatever the source emits while being connected must reach the subscriber that triggered the connect)
+  sbj.set_on_subscribe(move |n| {
+    cnt.push(0x700 | n as u32);
+    if let Some(s) = me.get() {
+      assert!(held(&s) == n, "subject.counts: on_subscribe reported an observer that is not registered yet");
+    }
+  });
   sbj.set_on_unsubscribe(move |n| cnt.push(0x800 | n as u32));
   let s1 = attach(&sbj, l1);
   let s2 = attach(&sbj, l2);
@@ -247,3 +256,39 @@ macro_rules! sbj3_h {
 }
 sbj3_h!(k_subject_reenter3__unsub_other_in_next, false);
 sbj3_h!(k_subject_reenter3__unsub_other_in_next_rev, true);
+
+sbj_h!(k_subject_reenter__next_in_error_callback, false, |sbj, l1, l2| {
+  let me: &'static Slot<Subject<'static, u8>> = Slot::new();
+  me.set(sbj.clone());
+  let once = Flag::new();
+  let _s1 = sbj.observable().subscribe(
+    move |x: u8| l1.push(EV_N | x as u32),
+    move |e: RxError| {
+      l1.push(EV_E | err_id(&e));
+      if !once.get() {
+        once.set(true);
+        if let Some(s) = me.get() {
+          s.next(99);
+        }
+      }
+    },
+    move || l1.push(EV_C),
+  );
+  let _s2 = sbj.observable().subscribe(
+    move |x: u8| l2.push(EV_N | x as u32),
+    move |e: RxError| {
+      l2.push(EV_E | err_id(&e));
+      if !once.get() {
+        once.set(true);
+        if let Some(s) = me.get() {
+          s.next(99);
+        }
+      }
+    },
+    move || l2.push(EV_C),
+  );
+  let id: u8 = kani::any();
+  sbj.error(err(id));
+  assert!(l1.is(&[EV_E | id as u32]) && l2.is(&[EV_E | id as u32]), "subject.error: an item issued from inside an error callback reached an observer of the terminated subject (the observers were not dropped before the multicast)");
+  assert!(held(&sbj) == 0, "subject.drops: observers still held after error");
+});
